@@ -88,6 +88,53 @@ class SymbolTables:
         self._symbol_tables = {}
         self._current_scope = None
 
+    def get_state(self):
+        """
+        Records the current set of symbol tables, their contents and the
+        current scope so that they can be re-instated with `set_state()`
+        (e.g. after a parse has failed).
+
+        :returns: an opaque object describing the current state.
+        :rtype: tuple
+        """
+
+        def _record(table):
+            # pylint: disable=protected-access
+            return (
+                table,
+                dict(table._data_symbols),
+                dict(table._modules),
+                [_record(child) for child in table._children],
+            )
+
+        return (
+            [_record(table) for table in self._symbol_tables.values()],
+            self._current_scope,
+        )
+
+    def set_state(self, state):
+        """
+        Re-instates the set of symbol tables, their contents and the current
+        scope recorded by an earlier call to `get_state()`.
+
+        :param tuple state: the object returned by `get_state()`.
+        """
+
+        def _reinstate(record):
+            # pylint: disable=protected-access
+            table, symbols, modules, children = record
+            table._data_symbols = symbols
+            table._modules = modules
+            table._children = [_reinstate(child) for child in children]
+            return table
+
+        records, scope = state
+        self._symbol_tables = {}
+        for record in records:
+            table = _reinstate(record)
+            self._symbol_tables[table.name] = table
+        self._current_scope = scope
+
     def add(self, name, node=None):
         """
         Add a new symbol table with the supplied name. The name will be
